@@ -274,6 +274,37 @@ template<class G> struct Pred {
       { T z=t; z = z + z; DT e2 = t.coeffs()+t.coeffs(); o.mat(z.coeffs()); o.mat(e2); }
       return true;
     }
+    if(op=="P02"){   // C02: t — exp(t) against an independent matrix exponential of hat(t) (scaling and squaring of the power series)
+      T t=mkT(c.args[0]);
+      using Alg = typename T::LieAlg; const int A = Alg::RowsAtCompileTime;
+      Alg H = t.hat(); Dyn TX = t.exp().transform(); Alg M = TX.topLeftCorner(A,A);
+      int sq=0; S mx = H.cwiseAbs().maxCoeff(); while(mx > S(0.5)){ mx = mx/S(2); sq++; }
+      Alg Hs = H; for(int i=0;i<sq;i++) Hs = (Hs/S(2)).eval();
+      Alg E = Alg::Identity(), term = Alg::Identity();
+      for(int k=1;k<40;k++){ term = (term*Hs/S(k)).eval(); E += term; }
+      for(int i=0;i<sq;i++) E = (E*E).eval();
+      o.mat(M); o.mat(E);
+      // hat is the documented linear combination of the generators
+      Alg sum = Alg::Zero(); for(int i=0;i<T::DoF;i++) sum += t.coeffs()(i)*T::Generator(i);
+      o.mat(H); o.mat(sum);
+      // finite values for finite input
+      bool fin = true; for(int i=0;i<TX.rows();i++) for(int j=0;j<TX.cols();j++){ using std::isfinite; if(!isfinite(TX(i,j))) fin=false; }
+      o.scalar(S(fin?1:0)); o.scalar(S(1));
+      return true;
+    }
+    if(op=="P03"){   // C03: X, t
+      G X=mkG(c.args[0]); T t=mkT(c.args[1]);
+      T l = X.log();
+      o.mat(l.exp().transform()); o.mat(X.transform());                 // exp(log X) = X as a transformation
+      o.mat(t.exp().log().coeffs()); o.mat(t.coeffs());                 // log(exp t) = t (rotation below pi)
+      bool fin = true; for(int i=0;i<T::DoF;i++){ using std::isfinite; if(!isfinite(l.coeffs()(i))) fin=false; }
+      o.scalar(S(fin?1:0)); o.scalar(S(1));
+      o.mat(X.log().exp().log().coeffs()); o.mat(l.coeffs());           // log is idempotent through exp
+      if(c.args.size()>2){ G Xn=mkG(c.args[2]);                        // the same transformation written with the other sign of the quaternion
+        o.mat(Xn.log().coeffs()); o.mat(l.coeffs()); o.mat(Xn.transform()); o.mat(X.transform()); }
+      else { o.mat(l.coeffs()); o.mat(l.coeffs()); o.mat(X.transform()); o.mat(X.transform()); }
+      return true;
+    }
     return false;
   }
 };
